@@ -102,3 +102,10 @@ Theorem C04_depth_one_instance_is_matched_and_fires : forall s rl nd vs n theta 
       covers s1 a /\ covers s1 b /\ eg_eq s1 a b = Ok true.
 Proof. exact depth_one_complete_and_fires_reachable. Qed.
 Print Assumptions C04_depth_one_instance_is_matched_and_fires.
+
+(* with ONE static, decidable premise on the inserted terms (EGraph/OpsPreFacts.v) *)
+From SE Require Import EGraph.OpsPreFacts.
+Theorem C04_matcher_invariant_for_all_histories : forall terms ops hs s, List.Forall term_static terms ->
+  run_ops terms ops [] empty_egraph = Ok (hs, s) -> match_inv s.
+Proof. exact match_inv_reachable_static. Qed.
+Print Assumptions C04_matcher_invariant_for_all_histories.
